@@ -154,8 +154,13 @@ def run(ctx):
             ins = gen.rand_seq(rng, alpha, rng.randint(4, 12))
             b = a[:pos] + ins + a[pos:]
             if rng.random() < 0.5:
+                # both sides carry a segment the other lacks (the optimum needs a gap in the longer AND in the shorter sequence) -- with groups of
+                # different sizes on the two sides the penalties of each profile must be scaled by the size of the OTHER side
+                p2 = rng.randint(3, max(4, n // 4))
+                a = a[:p2] + a[p2 + rng.randint(3, 6):]
+            if rng.random() < 0.5:
                 a, b = b, a
-            ka, kb = rng.choice([(1, 2), (2, 1), (1, 3), (3, 1)])
+            ka, kb = rng.choice([(1, 2), (2, 1), (1, 3), (3, 1), (2, 3), (3, 2)])
             pens = [-1, -1, -1]
         threads = rng.choice([1, 4])
         if i < (36 if ctx.quick else 240):
